@@ -114,6 +114,29 @@ def gen_deep(rng):
     return finish(structs, [])
 
 
+def gen_diamond(rng):
+    """a struct reachable along two (or three) equal-depth paths, with tagged / untagged / nested fields below it"""
+    def fields(names):
+        return [dict(e=0, name=nm, t=rng.choice(PLAIN_TYPES), tag=rng.choice(TAGS) if rng.random() < 0.6 else "") for nm in names]
+    k = rng.choice([2, 2, 3])
+    shared = 1 + k
+    root = [dict(e=1, s=1 + i, ptr=rng.random() < 0.4, tag="") for i in range(k)] + fields(rng.sample(NAMES_EXP, rng.randint(0, 2)))
+    rng.shuffle(root)
+    structs = [dict(exp=True, fields=root)]
+    for i in range(k):
+        mid = [dict(e=1, s=shared, ptr=rng.random() < 0.4, tag="")] + fields(rng.sample(NAMES_EXP, rng.randint(0, 1)))
+        rng.shuffle(mid)
+        structs.append(dict(exp=rng.random() < 0.8, fields=mid))
+    sh = fields(rng.sample(NAMES_EXP, rng.randint(1, 3)))
+    if rng.random() < 0.5:
+        sh.append(dict(e=1, s=shared + 1, ptr=rng.random() < 0.4, tag=""))
+        structs.append(dict(exp=True, fields=sh))
+        structs.append(dict(exp=True, fields=fields(rng.sample(NAMES_EXP, rng.randint(1, 2)))))
+    else:
+        structs.append(dict(exp=True, fields=sh))
+    return finish(structs, [])
+
+
 def fixed_families():
     """hand-written shapes that must always be covered"""
     F = []
@@ -130,6 +153,7 @@ def fixed_families():
     # diamond: the same type along two paths, and fields below it
     F.append(finish([S([emb(1), emb(2)]), S([emb(3)]), S([emb(3)]), S([f("X"), emb(4)]), S([f("Y")])], []))
     F.append(finish([S([emb(1, True), emb(2, True)]), S([emb(3, True)]), S([emb(3, True)]), S([emb(4, True)]), S([f("Y"), f("Z", tag=",omitempty")])], []))
+    F.append(finish([S([emb(1), emb(2)]), S([emb(3)]), S([emb(3)]), S([f("X", tag="x"), f("Y", tag="y,omitempty"), f("Z")])], []))
     # non-ASCII initial letters, default names
     F.append(finish([S([f("Éa"), f("Ωm", "string"), f("Жк"), f("Ø"), f("Ёж")])], []))
     # embedded non-struct types, exported and not, by value and by pointer
@@ -175,6 +199,8 @@ def families(seed, tier):
     for _ in range(n // 15):
         fams.append(gen_wide(rng))
         fams.append(gen_deep(rng))
+        fams.append(gen_diamond(rng))
+        fams.append(gen_diamond(rng))
     if tier != "quick":
         fams += enumerate_small()
     else:
